@@ -70,6 +70,7 @@ def build(case):
     prof = {int(k): v for k, v in (case.get("profiles") or {}).items()}
     P = lambda k: prof.get(k, "full")
     infn = [list(x) for x in (case.get("infn") or [])]
+    inloop = [list(x) for x in (case.get("inloop") or [])]
     # the module that was edited after the first build (None: the project as first written): its first trace line says so and its
     # counter starts at 50
     edited = case.get("edited_now")
@@ -89,6 +90,15 @@ def build(case):
                 else:
                     slots[slot].append("ld_%d_%dn = fn() -> int {\n\timport bump_%d, get_%d from %s\n\treturn bump_%d()\n}" % (i, j, j, j, p, j))
                 slots[slot].append("print \"m%d->m%d \" + ld_%d_%d%s()" % (i, j, i, j, "" if form == "module" else "n"))
+                continue
+            if [i, j, form] in [x[:3] for x in inloop] and P(j) == "full" and form in ("module", "names"):
+                # the import statement is a direct statement of a LOOP body that runs 0, 1 or 2 times: it executes once per pass,
+                # after the statements in front of it - and not at all when the loop does not run
+                k_ = [x[3] for x in inloop if x[:3] == [i, j, form]][0]
+                call = "%s.bump_%d()" % (M(j), j) if form == "module" else "bump_%d()" % j
+                imp = "import %s" % p if form == "module" else "import bump_%d, get_%d from %s" % (j, j, p)
+                head = "from 0 to %d, lp_%d_%d {" % (k_, i, j) if (i + j) % 2 == 0 else "lw_%d_%d = 0\nwhile lw_%d_%d < %d {\n\tlw_%d_%d = lw_%d_%d + 1" % (i, j, i, j, k_, i, j, i, j)
+                slots[slot].append("%s\n\tprint \"m%d pass\"\n\t%s\n\tprint \"m%d->m%d \" + %s\n}" % (head, i, imp, i, j, call))
                 continue
             if P(j) != "full":
                 slots[slot].append("import %s" % p)
@@ -126,7 +136,7 @@ def build(case):
         lines += slots[2]
         if k == 0:
             for (i, j, form, slot, dot) in by_src[0]:
-                if P(j) != "full" or [i, j, form] in infn:
+                if P(j) != "full" or [i, j, form] in infn or [i, j, form] in [x[:3] for x in inloop]:
                     continue
                 if form == "type":
                     continue
@@ -151,6 +161,16 @@ def build(case):
             for (i, j, form, s, dot) in by_src[k]:
                 if s != slot:
                     continue
+                lp = [x[3] for x in inloop if x[:3] == [i, j, form]] if (P(j) == "full" and form in ("module", "names")) else []
+                if lp:
+                    for _ in range(lp[0]):
+                        out.append("m%d pass" % i)
+                        if j not in done:
+                            done.add(j)
+                            run_module(j)
+                        counter[j] += 1
+                        out.append("m%d->m%d %d" % (i, j, counter[j]))
+                    continue
                 if j not in done:
                     done.add(j)
                     run_module(j)
@@ -166,7 +186,7 @@ def build(case):
                 out.append("m%d:%d" % (k, slot + 1))
         if k == 0:
             for (i, j, form, s, dot) in by_src[0]:
-                if P(j) != "full" or [i, j, form] in infn or form == "type":
+                if P(j) != "full" or [i, j, form] in infn or form == "type" or [i, j, form] in [x[:3] for x in inloop]:
                     continue
                 out.append("final m%d %d" % (j, counter[j]))
                 if form == "module":
@@ -303,7 +323,7 @@ def describe(case):
         return "special:" + case["special"]
     if "negative" in case:
         return "negative:" + case["negative"]
-    return "n=%d layout=%s%s%s%s edges=%s" % (case["n"], case["layout"], (" edit=m%d after a first %s" % (case["edit"], case.get("first", "run"))) if case.get("edit") is not None else "", (" infn=%s" % case["infn"]) if case.get("infn") else "", (" profiles=%s" % sorted((case.get("profiles") or {}).items())) if case.get("profiles") else "", " ".join("%d>%d:%s@%d%s" % (i, j, f[0], s, "." if d else "") for i, j, f, s, d in case["edges"]))
+    return "n=%d layout=%s%s%s%s edges=%s" % (case["n"], case["layout"], (" edit=m%d after a first %s" % (case["edit"], case.get("first", "run"))) if case.get("edit") is not None else "", ((" infn=%s" % case["infn"]) if case.get("infn") else "") + ((" inloop=%s" % case["inloop"]) if case.get("inloop") else ""), (" profiles=%s" % sorted((case.get("profiles") or {}).items())) if case.get("profiles") else "", " ".join("%d>%d:%s@%d%s" % (i, j, f[0], s, "." if d else "") for i, j, f, s, d in case["edges"]))
 
 
 def check(case):
@@ -335,7 +355,7 @@ def check(case):
     nt = any(v >= 2 for v in indeg.values()) or any(len(v) == 2 for v in forms.values())
     formset = set(f for _, _, f, _, _ in case["edges"])
     labels = ["form=" + f for f in sorted(formset)] + ["n=%d" % case["n"], "layout=" + case["layout"]] + (["diamond"] if any(v >= 2 for v in indeg.values()) else []) + \
-             (["dot-spelling"] if any(d for *_, d in case["edges"]) else []) + (["import-inside-function"] if case.get("infn") else []) + ["exports=" + v for v in set((case.get("profiles") or {}).values())] + \
+             (["dot-spelling"] if any(d for *_, d in case["edges"]) else []) + (["import-inside-function"] if case.get("infn") else []) + (["import-inside-loop-body:passes=%s" % ",".join(sorted(set(str(x[3]) for x in case["inloop"])))] if case.get("inloop") else []) + ["exports=" + v for v in set((case.get("profiles") or {}).values())] + \
              (["rebuild-after-edit:" + ("directly-imported" if any(i == 0 and j == case["edit"] for i, j, *_ in case["edges"]) else "imported-through-others")] if case.get("edit") is not None else [])
     r = CaseResult(nt_keys=[describe(case)] if nt else [], labels=labels, sample={"case": describe(case), "main.ms": files["main.ms"], "expected": exp[:12]})
     if fails:
@@ -386,6 +406,16 @@ def enumerated(tier, seed):
                 edges = [(i, j, form, b % 3, False) for b, (i, j) in enumerate(es)]
                 for src in sorted(set(i for i, _ in es)):
                     cases.append({"n": n, "edges": edges, "layout": "flat", "infn": [[i, j, form] for i, j in es if i == src]})
+        # the same graphs with the import statements of one importer placed directly in LOOP bodies that run 0, 1 or 2 times
+        for es in all_dags(n):
+            for form in ("module", "names"):
+                edges = [(i, j, form, b % 3, False) for b, (i, j) in enumerate(es)]
+                for src in sorted(set(i for i, _ in es)):
+                    for passes in (0, 1, 2):
+                        cases.append({"n": n, "edges": edges, "layout": "flat", "inloop": [[i, j, form, passes] for i, j in es if i == src]})
+                    mine = [(i, j) for i, j in es if i == src]
+                    if len(mine) >= 2:
+                        cases.append({"n": n, "edges": edges, "layout": "flat", "inloop": [[i, j, form, q % 3] for q, (i, j) in enumerate(mine)]})
         # the edit / rebuild cycle: the same graphs built, ONE module edited (each in turn), built again
         for es in all_dags(n):
             for form in ("module", "names"):
